@@ -2,6 +2,9 @@
 
 Reads, fail closed, from the source tree under test:
 
+0. the schedule refusals of Readout.__init__ (first time zero, start >= first time, not strictly increasing; an
+   empty `times` refused before them)  -> `readout_guards`; Properties/C17.v proves that they accept exactly the
+   schedules of the model's valid_schedule.
 1. every function under pyxel/models/** that reads one of the detector's time attributes (time_step, time,
    absolute_time, is_first_readout, pipeline_count, ...) or has a `time_scale` parameter  -> `time_readers`.
    Each one must be classified in CLASSIFICATION below as time-integrating (then the check exercises it) or
@@ -85,9 +88,9 @@ CLASSIFICATION = {
         random_when=["temporal_noise", "spatial_noise_factor is not None"]),
     # ---- read the clock but are not deterministic flux integrators
     "pyxel/models/charge_generation/simple_dark_current.py:simple_dark_current": _exc(
-        "always random: Poisson draw with mean dark_rate * time_step (mean probed by the check, see harness)"),
+        "always random: Poisson draw with mean dark_rate * time_step"),
     "pyxel/models/charge_generation/dark_current_saphira.py:dark_current_saphira": _exc(
-        "always random: Poisson draw with mean dark * time_step (mean probed by the check, see harness)"),
+        "always random: Poisson draw with mean dark * time_step"),
     "pyxel/models/charge_generation/dark_current_induced.py:radiation_induced_dark_current": _exc(
         "always random (Poisson interactions, exponential amplitudes) and rounded"),
     "pyxel/models/charge_generation/charge_deposition.py:charge_deposition": _exc("random particle tracks"),
@@ -666,7 +669,14 @@ class Sym:
         for k in changed:
             vals = [o.env.get(k, p.env.get(k, var("global:" + k))) for o in outs]
             vals = [bad("state", "detector") if v == DET else v for v in vals]
-            p.env[k] = var("branch:" + k) if all(is_free(v) for v in [tv] + vals) else worst_bad([tv] + vals, "branch:" + k)
+            if all(is_free(v) for v in [tv] + vals):
+                p.env[k] = var("branch:" + k)
+            elif is_free(tv):
+                # two different step-dependent values chosen by a step-independent run-time test: each side may be
+                # fine, but this translator has no conditional expression - fail closed rather than reject the row
+                self.fail(fr.rel, st, f"branch on a run-time value changes the step-dependent local '{k}'")
+            else:
+                p.env[k] = worst_bad([tv] + vals, "branch:" + k)
             p.psub.pop(k, None)
         return [p]
 
@@ -724,6 +734,87 @@ def defaults_of(fn) -> dict:
         except (ValueError, SyntaxError):
             out[nm] = None
     return out
+
+
+# ------------------------------------------------------------------------------------------ 3. Readout guards
+
+READOUT_FILE, READOUT_CLASS = "pyxel/exposure/readout.py", "Readout"
+
+_GUARD_SHAPES = {
+    "GFirstZero": {"T[0] == 0", "0 == T[0]", "T[0] == 0.0", "0.0 == T[0]", "not T[0]", "not T[0] != 0"},
+    "GStartGeFirst": {"S >= T[0]", "T[0] <= S", "not S < T[0]", "not T[0] > S"},
+    "GNotIncreasing": {"not np.all(np.diff(T) > 0)", "not (np.diff(T) > 0).all()", "np.any(np.diff(T) <= 0)",
+                       "(np.diff(T) <= 0).any()", "not np.all(T[1:] > T[:-1])", "np.any(T[1:] <= T[:-1])",
+                       "not np.all(np.diff(T) > 0.0)", "np.any(np.diff(T) <= 0.0)"},
+}
+
+
+def _norm_guard(test: ast.AST) -> str:
+    class T(ast.NodeTransformer):
+        def visit_Attribute(s, n):  # noqa: N802, N805
+            if isinstance(n.value, ast.Name) and n.value.id == "self" and n.attr in ("_times", "times"):
+                return ast.Name(id="T", ctx=ast.Load())
+            if isinstance(n.value, ast.Name) and n.value.id == "self" and n.attr in ("_start_time", "start_time"):
+                return ast.Name(id="S", ctx=ast.Load())
+            return s.generic_visit(n)
+
+        def visit_Name(s, n):  # noqa: N802, N805
+            return ast.Name(id="S", ctx=ast.Load()) if n.id == "start_time" else n
+
+    import copy
+    return ast.unparse(ast.fix_missing_locations(T().visit(copy.deepcopy(test))))
+
+
+def _ends_with_raise(body) -> bool:
+    return bool(body) and isinstance(body[-1], ast.Raise)
+
+
+def _chain(st: ast.If):
+    """[(test, body), ...], final else body (or [])."""
+    links = []
+    while True:
+        links.append((st.test, st.body))
+        if len(st.orelse) == 1 and isinstance(st.orelse[0], ast.If):
+            st = st.orelse[0]
+        else:
+            return links, st.orelse
+
+
+def readout_guards(repo: Path) -> dict:
+    """The refusals of Readout.__init__ that concern the schedule: which of the three guards are present, and
+    whether an empty `times` is refused before them.  Any other refusal that mentions the times / start time is
+    a shape this translator does not know: fail closed."""
+    from .common import body_no_doc, find_func
+
+    tree = parse(repo, READOUT_FILE)
+    fn = find_func(tree, "__init__", cls=READOUT_CLASS)
+    guards, empty_refused = [], False
+    for st in body_no_doc(fn):
+        if not isinstance(st, ast.If):
+            continue
+        links, orelse = _chain(st)
+        tests = [_norm_guard(t) for t, _ in links]
+        mentions_schedule = any(("T" in {n.id for n in ast.walk(ast.parse(t, mode="eval")) if isinstance(n, ast.Name)}
+                                 or "S" in {n.id for n in ast.walk(ast.parse(t, mode="eval")) if isinstance(n, ast.Name)})
+                                for t in tests)
+        if not mentions_schedule:
+            # the chain that chooses where the times come from: an empty / missing `times` is refused when the
+            # `times` link is a truthiness test and the chain ends in a raise
+            names = [t for t in tests]
+            if "times" in names and _ends_with_raise(orelse):
+                empty_refused = True
+            continue
+        for (test, body), text in zip(links, tests):
+            if not _ends_with_raise(body):
+                raise TranslationError(f"{READOUT_FILE}:{test.lineno}: a branch on the readout times that does not raise: {text}")
+            kind = next((k for k, shapes in _GUARD_SHAPES.items() if text in shapes), None)
+            if kind is None:
+                raise TranslationError(f"{READOUT_FILE}:{test.lineno}: readout guard of an unknown shape: {text}")
+            if kind not in guards:
+                guards.append(kind)
+        if orelse and not all(isinstance(x, (ast.Pass, ast.Expr)) for x in orelse):
+            raise TranslationError(f"{READOUT_FILE}:{st.lineno}: else-branch of a readout guard does something")
+    return dict(guards=guards, empty_refused=empty_refused)
 
 
 # ------------------------------------------------------------------------------------------ rendering
@@ -790,6 +881,9 @@ def render(st: dict) -> str:
     L.append("Definition excluded_models : list (string * string) := [")
     L.append(";\n".join(f"  ({s_lit(k)}, {s_lit(v)})" for k, v in st["excluded"]))
     L.append("].\n")
+    L.append("(* the schedule refusals of Readout.__init__ *)")
+    L.append("Definition readout_guards : list sguard := [" + "; ".join(st["readout"]["guards"]) + "].")
+    L.append(f"Definition readout_empty_refused : bool := {'true' if st['readout']['empty_refused'] else 'false'}.\n")
     L.append("Definition rate_table : list rate_row := [")
     rows = []
     for r in st["rows"]:
@@ -811,16 +905,15 @@ def translate_struct(repo: Path) -> dict:
     if unknown:
         raise TranslationError("model function(s) read the exposure clock but are not classified as time-integrating "
                                "or excluded (translator/c17.py CLASSIFICATION): " + ", ".join(unknown))
-    gone = sorted(k for k in CLASSIFICATION if k not in readers)
-    if gone:
-        raise TranslationError("classified function(s) no longer read the exposure clock or no longer exist: "
-                               + ", ".join(gone))
+    # an excluded entry whose function disappeared or stopped reading the clock is harmless (kept in the table);
+    # an integrating model must still exist - whether it still uses the time step is decided by its rows below
     sym = Sym(repo)
-    st = dict(readers=readers, integrating=[], expr_models=[], excluded=[], rows=[], models={})
+    st = dict(readout=readout_guards(repo), readers=readers, integrating=[], expr_models=[], excluded=[], rows=[], models={})
     for key in sorted(CLASSIFICATION):
         c = CLASSIFICATION[key]
         if c["cls"] == EXCLUDED:
-            st["excluded"].append((key, c["reason"]))
+            if key in readers:
+                st["excluded"].append((key, c["reason"]))
             continue
         rel, qn = key.split(":")
         fn = find_function(sym.trees.get(rel) or parse(repo, rel), qn)
